@@ -177,7 +177,10 @@ def expected_from_lean(ck, cases):
                 c.expect_nodes.append((int(node), loc, unhexs(label), unhexs(actual)))
             c.expect = ("ok", sorted(ents, key=lambda x: (x[0], x[1])))
         else:
-            c.expect = ("lean-" + f[0], [])
+            # the specification side could not read its own request (a malformed value / meaning table written by a generator or a
+            # family of these checks): never a property of the code under test - fail loudly instead of counting the case as ill-typed
+            raise RuntimeError("the Lean driver answered %r for a frontier request: the specification side of this case is malformed (invocation %r, value %s, meanings %s)" % (
+                f[0], c.text[:200], c.value_sexp[:200], c.meanings[:300]))
 
 
 def run_corpus(ck, stream, n, per_bin=20, allow_regex=True, forms=None, default_features=True, seed_salt=0, use_cache=True, positions=None, edition="2024", gen_stream=None, release=False):
